@@ -65,20 +65,20 @@ theorem run_resolversFrom : ∀ (pre : List (Nat × List Packet × List Command)
 /-! ### (a) `AddressesFound` lists only addresses that were received for that name -/
 
 /-- What an `AddressesFound(host, addrs)` on channel `ch` says, in terms of the commands given
-    and the records DELIVERED to the daemon (`T` = time of the previous iteration, `now` = time of
-    this one):
+    and the records DELIVERED to the daemon (`now` = time of the iteration that emits it):
     * a `resolve_hostname` command with this channel asked for a name that equals `host` up to
       letter case;
     * every listed address comes from a delivered A / AAAA record whose owner name is `host`
       (byte for byte: the event is per owner name as received), with that address, tagged with
-      the interface it arrived on, and whose lifetime (delivery time + TTL) had not ended at the
-      previous iteration, or does not end before `now`. -/
-structure HFoundFrom (hist : List Delivery) (cmds : List Command) (T now ch : Nat) (host : BList)
+      the interface it arrived on, and whose lifetime (delivery time + TTL) ends after `now`:
+      the record is unexpired at the instant of the event (since the repair of D44; before it
+      only "had not ended at the previous iteration" held). -/
+structure HFoundFrom (hist : List Delivery) (cmds : List Command) (now ch : Nat) (host : BList)
     (addrs : List AddrItem) : Prop where
   search : ∃ h t, Command.resolveHost h ch t ∈ cmds ∧ lower h = lower host
   addr : ∀ a ∈ addrs, ∃ d ∈ hist, d.wire.name = host ∧ (d.wire.ty = 1 ∨ d.wire.ty = 28) ∧
     (d.wire.rdata = .a a.1 ∨ d.wire.rdata = .aaaa a.1) ∧ d.ifName = a.2.1 ∧ d.ifIdx = a.2.2 ∧
-    (T < d.time + 1000 * d.wire.ttl ∨ now ≤ d.time + 1000 * d.wire.ttl)
+    now < d.time + 1000 * d.wire.ttl
 
 /-- a cached address entry with its justification, in terms of the delivery -/
 theorem addr_entry_delivered (hist : List Delivery) (c : Cache) (hc : CacheProv hist c) (key : BList) (e : Entry)
@@ -100,45 +100,94 @@ theorem addr_entry_delivered (hist : List Delivery) (c : Cache) (hc : CacheProv 
     · obtain ⟨h1, h2, h3⟩ := h5
       exact ⟨Or.inr (by rw [h1]), h2.symm, h3.symm, h8⟩
 
-/-- a group of `get_addresses_for_host(name)` on a justified cache whose entries respect the
-    expiry floor -/
-theorem group_sound (hist : List Delivery) (T now : Nat) (c : Cache) (hc : CacheProv hist c)
-    (hf : CacheAll (Floor T now) c) (name host : BList) (addrs : List AddrItem)
-    (hm : (host, addrs) ∈ addressesForHost c name) :
+/-- **The list is the unexpired part of the cache (cache-level contract, any cache).**  A group
+    `(host, addrs)` of `get_addresses_for_host(name)` at `now`: the set of addresses (with
+    interface) of the entries filed under the lower-cased name whose owner name is `host` and
+    that are NOT expired at `now` (`now < expires`) - all of them, and nothing else; and the
+    list is never empty (a name whose addresses have all run out gets no event). -/
+theorem hfound_lists_all (c : Cache) (now : Nat) (name host : BList) (addrs : List AddrItem)
+    (h : (host, addrs) ∈ addressesForHost c now name) :
+    (∀ a, a ∈ addrs ↔ ∃ e ∈ (c.addr.get (lower name)).getD [], now < e.record.expires ∧ e.record.name = host ∧
+      addrItemOf e = some a) ∧
+    addrs ≠ [] := by
+  obtain ⟨⟨e0, he0, hl0, hn0, a0, ha0⟩, hiff⟩ := mem_addressesForHost c now name host addrs h
+  refine ⟨hiff, fun hnil => ?_⟩
+  have : a0 ∈ addrs := (hiff a0).mpr ⟨e0, he0, hl0, hn0, ha0⟩
+  rw [hnil] at this
+  cases this
+
+/-- a group of `get_addresses_for_host(name)` at `now` on a justified cache: every address is
+    that of a delivered record whose lifetime ends after `now` -/
+theorem group_sound (hist : List Delivery) (now : Nat) (c : Cache) (hc : CacheProv hist c)
+    (name host : BList) (addrs : List AddrItem)
+    (hm : (host, addrs) ∈ addressesForHost c now name) :
     lower host = lower name ∧
     ∀ a ∈ addrs, ∃ d ∈ hist, d.wire.name = host ∧ (d.wire.ty = 1 ∨ d.wire.ty = 28) ∧
       (d.wire.rdata = .a a.1 ∨ d.wire.rdata = .aaaa a.1) ∧ d.ifName = a.2.1 ∧ d.ifIdx = a.2.2 ∧
-      (T < d.time + 1000 * d.wire.ttl ∨ now ≤ d.time + 1000 * d.wire.ttl) := by
-  obtain ⟨⟨e0, he0, hn0⟩, hiff⟩ := mem_addressesForHost c name host addrs hm
+      now < d.time + 1000 * d.wire.ttl := by
+  obtain ⟨⟨e0, he0, _, hn0, _⟩, hiff⟩ := mem_addressesForHost c now name host addrs hm
   refine ⟨?_, ?_⟩
   · obtain ⟨q, hq, hqk, hqe⟩ := mem_getD _ _ e0 he0
     have hf0 := (hc .addr q hq e0 hqe).2
     rw [← hn0, ← hqk]
     exact hf0.2
   · intro a ha
-    obtain ⟨e, he, hn, hi⟩ := (hiff a).mp ha
+    obtain ⟨e, he, hlive, hn, hi⟩ := (hiff a).mp ha
     obtain ⟨_, d, hd, h1, h2, h3, h4, h5, h6⟩ := addr_entry_delivered hist c hc _ e he a hi
-    refine ⟨d, hd, h1.trans hn, h2, h3, h4, h5, ?_⟩
-    obtain ⟨q, hq, _, hqe⟩ := mem_getD _ _ e he
-    rcases hf .addr q hq e hqe with h | h
-    · left; omega
-    · right; omega
+    exact ⟨d, hd, h1.trans hn, h2, h3, h4, h5, by omega⟩
 
-/-- **hfound_sound (one iteration), general form**: from a cache justified by the deliveries
-    `hist` whose entries respect the expiry floor (`Floor T now`: not expired at `T`, or not
-    expiring before `now`), and a resolver table that stems from the commands `cmds0`, every
-    `AddressesFound` of the iteration is as `HFoundFrom` says. -/
-theorem hfound_sound_floor (hist : List Delivery) (cmds0 : List Command) (T : Nat) (s : State) (now : Nat)
+/-- the cache as it is at a moment of the iteration `iter s now pkts cmds` at which an
+    `AddressesFound` can be assembled: when one of its datagrams has just been read (after the
+    datagrams before it), or when one of its commands is executed (after the ingress and
+    time-out phases and the commands before it) -/
+def EventCache (s : State) (now : Nat) (pkts : List Packet) (cmds : List Command) (c : Cache) : Prop :=
+  (∃ pre p post, pkts = pre ++ p :: post ∧ c = (ingress s now (pre ++ [p])).1.cache) ∨
+  (∃ pre c0 post, cmds = pre ++ c0 :: post ∧ c = (runCommands (preCommands s now pkts) now pre).1.cache)
+
+/-- **hfound_unexpired (the statement D44 violated; every state, every input).**  Take ANY
+    state of the daemon and ANY iteration at time `now` (any datagrams, any commands; however
+    late the iteration comes).  Every address listed by an `AddressesFound(host, addrs)` it
+    emits is the address (with interface) of a record of owner name `host` that is in the cache
+    at the moment the event is assembled and is NOT expired at `now` (`now < expires`); the
+    list is never empty.  Before the repair the list was made of all cached records, and on a
+    late iteration - `handle_response` runs before the eviction - it contained records that
+    had run out. -/
+theorem hfound_unexpired (s : State) (now : Nat) (pkts : List Packet) (cmds : List Command) (ch : Nat)
+    (host : BList) (addrs : List AddrItem)
+    (hm : Out.event ch (.hfound host addrs) ∈ (iter s now pkts cmds).2) :
+    ∃ c name, EventCache s now pkts cmds c ∧ addrs ≠ [] ∧
+      ∀ a ∈ addrs, ∃ e ∈ (c.addr.get (lower name)).getD [], e.record.name = host ∧ addrItemOf e = some a ∧
+        e.record.isExpired now = false := by
+  have key : ∀ (c : Cache) (name : BList), (host, addrs) ∈ addressesForHost c now name →
+      addrs ≠ [] ∧ ∀ a ∈ addrs, ∃ e ∈ (c.addr.get (lower name)).getD [], e.record.name = host ∧
+        addrItemOf e = some a ∧ e.record.isExpired now = false := by
+    intro c name hg
+    obtain ⟨⟨e0, he0, hl0, hn0, a0, ha0⟩, hiff⟩ := mem_addressesForHost c now name host addrs hg
+    refine ⟨?_, ?_⟩
+    · intro hnil
+      have : a0 ∈ addrs := (hiff a0).mpr ⟨e0, he0, hl0, hn0, ha0⟩
+      rw [hnil] at this
+      cases this
+    · intro a ha
+      obtain ⟨e, he, hl, hn, hi⟩ := (hiff a).mp ha
+      exact ⟨e, he, hn, hi, by simp [Record.isExpired]; omega⟩
+  rcases hfound_iter s now pkts cmds ch host addrs hm with ⟨pre, p, post, name, hp, _, hg⟩ | ⟨pre, h0, t, post, hp, hg⟩
+  · exact ⟨_, name, Or.inl ⟨pre, p, post, hp, rfl⟩, key _ name hg⟩
+  · exact ⟨_, h0, Or.inr ⟨pre, _, post, hp, rfl⟩, key _ h0 hg⟩
+
+/-- **hfound_sound (one iteration).**  From a cache justified by the deliveries `hist` and a
+    resolver table that stems from the commands `cmds0`: every `AddressesFound` of the
+    iteration is as `HFoundFrom` says.  No assumption on when the iteration comes. -/
+theorem hfound_sound_iter (hist : List Delivery) (cmds0 : List Command) (s : State) (now : Nat)
     (pkts : List Packet) (cmds : List Command) (hc : CacheProv hist s.cache)
-    (hfl : CacheAll (Floor T now) s.cache) (hr : ResolversFrom cmds0 s.resolvers)
+    (hr : ResolversFrom cmds0 s.resolvers)
     (ch : Nat) (host : BList) (addrs : List AddrItem)
     (hm : Out.event ch (.hfound host addrs) ∈ (iter s now pkts cmds).2) :
-    HFoundFrom (hist ++ deliveries s now pkts) (cmds0 ++ cmds) T now ch host addrs := by
+    HFoundFrom (hist ++ deliveries s now pkts) (cmds0 ++ cmds) now ch host addrs := by
   rcases hfound_iter s now pkts cmds ch host addrs hm with ⟨pre, p, post, name, hp, hch, hg⟩ | ⟨pre, h0, t, post, hp, hg⟩
   · -- assembled in `handle_response`
     have hprov := (ok_ingress now (pre ++ [p]) hist s hc).1
-    have hfloor := floor_ingress T now (pre ++ [p]) s hfl
-    obtain ⟨hlow, haddr⟩ := group_sound _ T now _ hprov hfloor name host addrs hg
+    obtain ⟨hlow, haddr⟩ := group_sound _ now _ hprov name host addrs hg
     obtain ⟨q, hq, hqk, hqc⟩ := resolverChan_mem s name ch hch
     obtain ⟨h1, t1, hcmd, hk⟩ := hr q hq
     refine ⟨⟨h1, t1, List.mem_append_left _ (hqc ▸ hcmd), ?_⟩, ?_⟩
@@ -152,45 +201,23 @@ theorem hfound_sound_floor (hist : List Delivery) (cmds0 : List Command) (T : Na
   · -- the cache replay of a `resolve_hostname` command
     have hL := lowClosed_cacheProv (hist ++ deliveries s now pkts)
     have hprov := (ok_runCommands _ hL now pre _ (prov_preCommands hist s now pkts hc)).1
-    have hfloor := floor_runCommands T now pre _ (floor_preCommands T now s pkts hfl)
-    obtain ⟨hlow, haddr⟩ := group_sound _ T now _ hprov hfloor h0 host addrs hg
+    obtain ⟨hlow, haddr⟩ := group_sound _ now _ hprov h0 host addrs hg
     refine ⟨⟨h0, t, List.mem_append_right _ (by rw [hp]; simp), hlow.symm⟩, haddr⟩
 
-/-- **hfound_sound (one iteration).**  From a cache justified by the deliveries `hist` whose
-    entries had not expired at `T`, and a resolver table that stems from the commands `cmds0`:
-    every `AddressesFound` of the iteration is as `HFoundFrom` says. -/
-theorem hfound_sound_iter (hist : List Delivery) (cmds0 : List Command) (T : Nat) (s : State) (now : Nat)
-    (pkts : List Packet) (cmds : List Command) (hc : CacheProv hist s.cache)
-    (hl : CacheAll (fun e => T < e.record.expires) s.cache) (hr : ResolversFrom cmds0 s.resolvers)
-    (ch : Nat) (host : BList) (addrs : List AddrItem)
-    (hm : Out.event ch (.hfound host addrs) ∈ (iter s now pkts cmds).2) :
-    HFoundFrom (hist ++ deliveries s now pkts) (cmds0 ++ cmds) T now ch host addrs :=
-  hfound_sound_floor hist cmds0 T s now pkts cmds hc (hl.mono fun e he => Or.inl he) hr ch host addrs hm
-
 /-- **hfound_sound (whole histories).**  Start the daemon and run ANY history `pre`, then one
-    more iteration: every `AddressesFound(host, addrs)` it emits on a channel `ch` answers a
-    `resolve_hostname` call made on `ch` for that name (letter case ignored), and every listed
-    address comes from a delivered A / AAAA record of exactly that owner name, with the
-    interface it was received on, whose lifetime had not ended at the previous iteration (or
-    does not end before this one). -/
+    more iteration at ANY time `now`: every `AddressesFound(host, addrs)` it emits on a channel
+    `ch` answers a `resolve_hostname` call made on `ch` for that name (letter case ignored),
+    and every listed address comes from a delivered A / AAAA record of exactly that owner name,
+    with the interface it was received on, whose lifetime ends after `now`. -/
 theorem hfound_sound (t0 : Nat) (intfs : List Intf) (pre : List (Nat × List Packet × List Command))
     (now : Nat) (pkts : List Packet) (cmds : List Command) (ch : Nat) (host : BList) (addrs : List AddrItem)
     (hm : Out.event ch (.hfound host addrs) ∈ (iter (run (init t0 intfs) pre).1 now pkts cmds).2) :
     HFoundFrom (C03.histOf (init t0 intfs) (pre ++ [(now, pkts, cmds)])) (cmdsOf (pre ++ [(now, pkts, cmds)]))
-      (lastTime 0 pre) now ch host addrs := by
-  have h := hfound_sound_iter _ (cmdsOf pre) (lastTime 0 pre) _ now pkts cmds (run_prov pre t0 intfs)
-    (run_live pre (init t0 intfs) 0 (cacheAll_empty _))
+      now ch host addrs := by
+  have h := hfound_sound_iter _ (cmdsOf pre) _ now pkts cmds (run_prov pre t0 intfs)
     (by simpa using run_resolversFrom pre (init t0 intfs) [] (fun q hq => by cases hq)) ch host addrs hm
   rw [histOf_append, cmdsOf_append]
   simpa [C03.histOf, cmdsOf] using h
-
-/-- the event lists ALL addresses cached under that owner name at that moment: a group of
-    `get_addresses_for_host` is exactly the set of addresses (with interface) of the entries
-    filed under the lower-cased name whose owner name is the group's (cache-level contract) -/
-theorem hfound_lists_all (c : Cache) (name host : BList) (addrs : List AddrItem)
-    (h : (host, addrs) ∈ addressesForHost c name) (a : AddrItem) :
-    a ∈ addrs ↔ ∃ e ∈ (c.addr.get (lower name)).getD [], e.record.name = host ∧ addrItemOf e = some a :=
-  (mem_addressesForHost c name host addrs h).2 a
 
 /-- C17, first clause, read with "unexpired at the instant of the event": every address of an
     `AddressesFound` at `now` comes from a delivered record whose lifetime ends after `now`. -/
@@ -201,11 +228,22 @@ def hfound_unexpired_full : Prop :=
     ∀ a ∈ addrs, ∃ d ∈ C03.histOf (init t0 intfs) (pre ++ [(now, pkts, cmds)]),
       (d.wire.rdata = .a a.1 ∨ d.wire.rdata = .aaaa a.1) ∧ now < d.time + 1000 * d.wire.ttl
 
-/-! witness: an address with TTL 1 s is delivered at 1500; the next iteration comes at 5000 (a
-    late loop iteration) and reads another address of the host.  `handle_response` runs before
-    the eviction of that iteration and `get_addresses_for_host` does not look at expiry times:
-    the event lists the address that ran out at 2500 (it is reported removed at the end of the
-    same iteration). -/
+/-- **The full statement holds** (it was refuted - `hfound_unexpired_full_false`, witness
+    `lateHistory` - as long as `get_addresses_for_host` did not look at expiry times, D44):
+    after ANY history from the start of the daemon, at an iteration that comes at ANY time,
+    every address of every `AddressesFound` comes from a delivered record whose lifetime ends
+    after the instant of the event. -/
+theorem hfound_unexpired_full_holds : hfound_unexpired_full := by
+  intro t0 intfs pre now pkts cmds ch host addrs hm a ha
+  obtain ⟨d, hd, _, _, h3, _, _, h6⟩ := (hfound_sound t0 intfs pre now pkts cmds ch host addrs hm).addr a ha
+  exact ⟨d, hd, h3, h6⟩
+
+/-! regression (the witness of D44): an address with TTL 1 s is delivered at 1500; the next
+    iteration comes at 5000 (a late loop iteration) and reads another address of the host.
+    `handle_response` runs before the eviction of that iteration; `get_addresses_for_host`
+    skips the record that ran out at 2500: the event lists the new address only, and the old
+    one is reported removed at the end of the same iteration.  (Before the repair the event
+    listed both.) -/
 
 def hostH : BList := [0x48, 0x2e]              -- "H."
 def hostLower : BList := [0x68, 0x2e]          -- "h."
@@ -218,28 +256,25 @@ def addrPkt (name : BList) (ttl : Nat) (ip : BList) : Packet :=
 def lateHistory : List (Nat × List Packet × List Command) :=
   [(1000, [], [.resolveHost hostH 7 none]), (1500, [addrPkt hostLower 1 [10, 0, 0, 1]], [])]
 
-theorem late_witness :
+theorem D44_regression :
     ((iter (run (init 1000 [C03.eth0]) lateHistory).1 5000 [addrPkt hostLower 120 [10, 0, 0, 2]] []).2.filter
         fun o => match o with | .event _ (.hfound ..) => true | .event _ (.hremoved ..) => true | _ => false) =
-      [.event 7 (.hfound hostLower [([10, 0, 0, 2], [0x65], 2), ([10, 0, 0, 1], [0x65], 2)]),
+      [.event 7 (.hfound hostLower [([10, 0, 0, 2], [0x65], 2)]),
        .event 7 (.hremoved hostLower [([10, 0, 0, 1], [0x65], 2)])] := by decide
 
-/-- `hfound_unexpired_full` does not hold of the model: on a late iteration an address whose
-    record ran out is still listed (witness `lateHistory`).  `hfound_sound` is what holds
-    without a timeliness assumption; `Props.C12` shows that an iteration that is not later than
-    the requested wake-up finds no entry that ran out before `now`. -/
-theorem hfound_unexpired_full_false : ¬ hfound_unexpired_full := by
-  intro h
-  have hm : Out.event 7 (.hfound hostLower [([10, 0, 0, 2], [0x65], 2), ([10, 0, 0, 1], [0x65], 2)]) ∈
-      (iter (run (init 1000 [C03.eth0]) lateHistory).1 5000 [addrPkt hostLower 120 [10, 0, 0, 2]] []).2 := by
-    decide
-  obtain ⟨d, hd, hr, hl⟩ := h 1000 [C03.eth0] lateHistory 5000 _ [] 7 hostLower _ hm ([10, 0, 0, 1], [0x65], 2)
-    (by simp)
-  have hall : (C03.histOf (init 1000 [C03.eth0]) (lateHistory ++ [(5000, [addrPkt hostLower 120 [10, 0, 0, 2]], [])])).all
-      (fun d => !((d.wire.rdata == .a [10, 0, 0, 1] || d.wire.rdata == .aaaa [10, 0, 0, 1]) &&
-        decide (5000 < d.time + 1000 * d.wire.ttl))) = true := by decide
-  have hb := List.all_eq_true.mp hall d hd
-  rcases hr with hr | hr <;> simp [hr, hl] at hb
+/-- the cache replay of `resolve_hostname` skips expired entries too: the search is started
+    again at 5000, in the late iteration itself (commands run before the eviction): no
+    `AddressesFound` at all for the name whose only address ran out at 2500 - not an empty one -/
+example :
+    ((iter (run (init 1000 [C03.eth0]) lateHistory).1 5000 [] [.resolveHost hostH 8 none]).2.filter
+        fun o => match o with | .event _ (.hfound ..) => true | .event _ (.hremoved ..) => true | _ => false) =
+      [.event 8 (.hremoved hostLower [([10, 0, 0, 1], [0x65], 2)])] := by decide
+
+/-- ... and one millisecond before the expiry the address is still listed by the replay -/
+example :
+    ((iter (run (init 1000 [C03.eth0]) lateHistory).1 2499 [] [.resolveHost hostH 8 none]).2.filter
+        fun o => match o with | .event _ (.hfound ..) => true | .event _ (.hremoved ..) => true | _ => false) =
+      [.event 8 (.hfound hostLower [([10, 0, 0, 1], [0x65], 2)])] := by decide
 
 /-! ### (b) `AddressesRemoved` only for addresses whose entries ran out in that iteration -/
 
@@ -334,10 +369,13 @@ theorem hremoved_exact (s : State) (now : Nat) (ch : Nat) (host : BList) (addrs 
     address `ip` whose name (any letter case) has an open search on channel `ch`, and when its
     turn comes `add_or_update` reports it as new.  Then an `AddressesFound` for that owner name
     that lists `ip`, tagged with the receiving interface, goes to `ch` in this very
-    `handle_response`. -/
+    `handle_response`.  `httl`: the record and those read after it have TTL ≥ 1 - what the
+    decoder guarantees for every record of a response (`Wire.readRR_spec`: TTL 0 is read as 1) -
+    so that the new entry is not expired at `now` when the list is made (`hfound_unexpired`). -/
 theorem hfound_complete (s : State) (now : Nat) (intf : Intf) (m : Wire.Msg) (pre : List Wire.Rec)
     (r : Wire.Rec) (post : List Wire.Rec) (ch : Nat) (ip : BList) (e : Entry)
     (hrecs : m.answers ++ m.authorities ++ m.additionals = pre ++ r :: post)
+    (httl : ∀ x ∈ r :: post, 1 ≤ x.ttl)
     (hty : r.ty = 1 ∨ r.ty = 28) (hrd : r.rdata = .a ip ∨ r.rdata = .aaaa ip)
     (hch : resolverChan s r.name = some ch)
     (hnew : (addOrUpdate
@@ -346,7 +384,7 @@ theorem hfound_complete (s : State) (now : Nat) (intf : Intf) (m : Wire.Msg) (pr
         intf.name intf.idx (ofWire intf.name intf.idx now r) now (isForUs s m.answers)).result = some (e, true)) :
     ∃ addrs, Out.event ch (.hfound r.name addrs) ∈ (handleResponse s now intf m).2 ∧
       (ip, intf.name, intf.idx) ∈ addrs :=
-  hfound_complete_response s now intf m pre r post ch ip e hrecs hty hrd hch hnew
+  hfound_complete_response s now intf m pre r post ch ip e hrecs httl hty hrd hch hnew
 
 /-- when `add_or_update` reports a record as new: the message is one the daemon takes in
     (`is_for_us`), and every cached copy of the record (same owner, type, class, cache-flush bit,
@@ -370,10 +408,12 @@ theorem new_when_unknown_or_revived (c : Cache) (ifName : BList) (ifIdx now : Na
   rw [this, hflag]
 
 /-- **hfound_complete, first record of a datagram the daemon takes in**: an address that is not
-    cached yet (or cached only as a withdrawn record) for a searched name, TTL above 1 s -/
+    cached yet (or cached only as a withdrawn record) for a searched name, TTL above 1 s (the
+    records after it with TTL ≥ 1, as decoded) -/
 theorem hfound_complete_first (s : State) (now : Nat) (intf : Intf) (m : Wire.Msg)
     (r : Wire.Rec) (post : List Wire.Rec) (ch : Nat) (ip : BList)
     (hrecs : m.answers ++ m.authorities ++ m.additionals = r :: post)
+    (hpost : ∀ x ∈ post, 1 ≤ x.ttl)
     (hfor : isForUs s m.answers = true)
     (hty : r.ty = 1 ∨ r.ty = 28) (hrd : r.rdata = .a ip ∨ r.rdata = .aaaa ip) (httl : r.ttl > 1)
     (hch : resolverChan s r.name = some ch)
@@ -382,7 +422,11 @@ theorem hfound_complete_first (s : State) (now : Nat) (intf : Intf) (m : Wire.Ms
     ∃ addrs, Out.event ch (.hfound r.name addrs) ∈ (handleResponse s now intf m).2 ∧
       (ip, intf.name, intf.idx) ∈ addrs := by
   obtain ⟨e, he⟩ := new_when_unknown_or_revived s.cache intf.name intf.idx now r hty httl hrev
-  exact hfound_complete s now intf m [] r post ch ip e (by simpa using hrecs) hty hrd hch (by
+  exact hfound_complete s now intf m [] r post ch ip e (by simpa using hrecs)
+    (fun x hx => by
+      rcases List.mem_cons.mp hx with rfl | hx
+      · omega
+      · exact hpost x hx) hty hrd hch (by
     rw [hfor]
     exact he)
 
@@ -398,13 +442,13 @@ theorem response_outs_in_iter (s : State) (now : Nat) (pkts pre : List Packet) (
 /-! ### (d) A and AAAA at once, then at doubling intervals; the time-out ends the search -/
 
 /-- **Start.**  `resolve_hostname(host)` on `ch`: `SearchStarted`, the addresses already cached
-    for the name (one `AddressesFound` per owner name), then ONE query asking A and AAAA for
+    for the name and not expired (one `AddressesFound` per owner name), then ONE query asking A and AAAA for
     the name as given, with the known answers; the search is filed under the lower-cased name
     with its deadline `now + timeout`, a timer is armed for the deadline, and any earlier search
     of that name (any letter case) is replaced. -/
 theorem resolve_starts_client (s : State) (now : Nat) (host : BList) (ch : Nat) (timeout : Option Nat) :
     (execCommand s now (.resolveHost host ch timeout)).2 =
-      [.event ch .hstarted] ++ ((addressesForHost s.cache host).map fun p => Out.event ch (.hfound p.1 p.2)) ++
+      [.event ch .hstarted] ++ ((addressesForHost s.cache now host).map fun p => Out.event ch (.hfound p.1 p.2)) ++
         [sendQuery s.cache now [(host, 1), (host, 28)]] ∧
     (execCommand s now (.resolveHost host ch timeout)).1.resolvers =
       (lower host, ch, timeout.map (now + ·)) :: s.resolvers.filter (fun q => q.1 != lower host) ∧
